@@ -48,15 +48,16 @@ LexLessFrom(a, b, i) ==
 LexLess(a, b) == LexLessFrom(a, b, 1)         \* strict bytewise order
 LexLeq(a, b)  == a = b \/ LexLess(a, b)
 
-RECURSIVE SumSeqFrom(_, _)
-SumSeqFrom(s, i) == IF i > Len(s) THEN 0 ELSE s[i] + SumSeqFrom(s, i + 1)
-SumSeq(s) == SumSeqFrom(s, 1)
-
-RECURSIVE FlattenFrom(_, _)
-FlattenFrom(ss, i) == IF i > Len(ss) THEN <<>> ELSE ss[i] \o FlattenFrom(ss, i + 1)
-Flatten(ss) == FlattenFrom(ss, 1)             \* Seq(Seq(X)) -> Seq(X)
+\* folds (SequencesExt!FoldLeft is evaluated iteratively by TLC: segments of 65 536+ documents
+\* are summed without deep recursion)
+SumSeq(s) == FoldLeft(LAMBDA acc, x : acc + x, 0, s)
+Flatten(ss) == FoldLeft(LAMBDA acc, x : acc \o x, <<>>, ss)     \* Seq(Seq(X)) -> Seq(X)
 
 RangeOf(s) == {s[i] : i \in DOMAIN s}
+
+\* TLC keeps [i \in 1..n |-> e] unevaluated and re-evaluates e at every application; a sequence that is
+\* indexed many times is turned into an explicit tuple once (semantically the identity on sequences)
+Force(s) == s \o <<>>
 
 \* sort a finite set into a sequence under a strict total order
 SetToSorted(S, Less(_, _)) == SetToSortSeq(S, Less)    \* SequencesExt: SortSeq(SetToSeq(S), Less)
@@ -77,15 +78,18 @@ FieldList(S) == SetToSorted(S \cup {"_id"}, FieldLess)
 -----------------------------------------------------------------------------
 (* Build *)
 
+\* (written as the range of one flattened sequence: TLC's UNION is quadratic in the size of the result,
+\* which matters for batches with tens of thousands of fields)
 BatchFieldNames(batch) ==
-    UNION {{batch[d][i].name : i \in DOMAIN batch[d]} : d \in DOMAIN batch}
+    RangeOf(Flatten([d \in DOMAIN batch |-> [i \in DOMAIN batch[d] |-> batch[d][i].name]]))
 
 BatchDvFields(batch) ==
-    UNION {{batch[d][i].name : i \in {j \in DOMAIN batch[d] : batch[d][j].dv}} : d \in DOMAIN batch}
+    RangeOf(Flatten([d \in DOMAIN batch |->
+                LET fl == SelectSeq(batch[d], LAMBDA fi : fi.dv) IN [i \in DOMAIN fl |-> fl[i].name]]))
 
 Build(batch) ==
     LET dvf == BatchDvFields(batch) IN
-    [docs   |-> [d \in DOMAIN batch |-> [insts |-> batch[d], dv |-> dvf]],
+    [docs   |-> Force([d \in DOMAIN batch |-> [insts |-> batch[d], dv |-> dvf]]),
      fields |-> FieldList(BatchFieldNames(batch)),
      origin |-> "built"]
 
@@ -154,7 +158,7 @@ DocNumbers(c) == [i \in 1..Len(c.docs) |-> i - 1]
 \* the full postings list of (f, t): ascending document order (linear in the number of documents)
 Postings(c, f, t) ==
     LET ds == SelectSeq(DocNumbers(c), LAMBDA n : HasTerm(c.docs[n + 1], f, t)) IN
-    [i \in DOMAIN ds |-> PostingOf(c, ds[i], f, t)]
+    Force([i \in DOMAIN ds |-> PostingOf(c, ds[i], f, t)])
 
 -----------------------------------------------------------------------------
 (* Read semantics *)
@@ -194,11 +198,9 @@ IterAdvance(list, actual, last, d) ==
 
 \* the same, as a scan from a cursor: the first index > i whose posting is in `actual` and >= d
 \* (0 = none).  Lists are ascending, so "after the last returned one" is "after its index".
-RECURSIVE ScanFrom(_, _, _, _)
 ScanFrom(list, actual, i, d) ==
     IF i > Len(list) THEN 0
-    ELSE IF list[i].doc \in actual /\ list[i].doc >= d THEN i
-    ELSE ScanFrom(list, actual, i + 1, d)
+    ELSE SelectInSubSeq(list, i, Len(list), LAMBDA p : p.doc \in actual /\ p.doc >= d)
 
 ListDocs(list) == {list[i].doc : i \in DOMAIN list}
 
@@ -255,8 +257,7 @@ ValidDrops(contents, drops) ==
     /\ \A i \in DOMAIN contents : drops[i] \subseteq 0..(Len(contents[i].docs) - 1)
 
 SurvivorsOf(c, drop) ==
-    LET idx == SelectSeq(DocNumbers(c), LAMBDA n : n \notin drop) IN
-    [k \in DOMAIN idx |-> c.docs[idx[k] + 1]]
+    FoldLeft(LAMBDA acc, n : IF n \in drop THEN acc ELSE Append(acc, c.docs[n + 1]), <<>>, DocNumbers(c))
 
 NumSurvivors(c, drop) == Len(c.docs) - Cardinality(drop)
 
@@ -265,12 +266,14 @@ BaseOf(contents, drops, i) ==          \* new number of the first survivor of se
     IF i = 1 THEN 0 ELSE BaseOf(contents, drops, i - 1) + NumSurvivors(contents[i - 1], drops[i - 1])
 
 \* C03: one sequence per input; Dropped for deleted documents, else consecutive numbers
+\* (one pass over the document numbers, so that segments with thousands of deletions stay cheap)
 DocNumMap(contents, drops) ==
-    [i \in DOMAIN contents |->
-        [n1 \in 1..Len(contents[i].docs) |->
-            IF (n1 - 1) \in drops[i] THEN Dropped
-            ELSE BaseOf(contents, drops, i)
-                 + (n1 - 1) - Cardinality({m \in drops[i] : m < n1 - 1})]]
+    Force([i \in DOMAIN contents |->
+        FoldLeft(LAMBDA acc, n : IF n \in drops[i]
+                                 THEN [next |-> acc.next, seq |-> Append(acc.seq, Dropped)]
+                                 ELSE [next |-> acc.next + 1, seq |-> Append(acc.seq, acc.next)],
+                 [next |-> BaseOf(contents, drops, i), seq |-> <<>>],
+                 DocNumbers(contents[i])).seq])
 
 Merge(contents, drops) ==
     [docs   |-> Flatten([i \in DOMAIN contents |-> SurvivorsOf(contents[i], drops[i])]),
